@@ -414,3 +414,57 @@ def jun_malformed(fam, args):
     except ValueError:
         return dict(violated=True, observed=r, detail="returned %r for a string the reference decoder refuses" % r)
     return dict(violated=(ref != r), observed=r, detail="reference %r" % ref)
+
+
+_AS_BLOCKS = [(0, 64511), (64512, 65535), (65536, 4199999999), (4200000000, 4294967295)]
+
+
+@register("as_replacement")
+def as_replacement(fam, args):
+    num = args["number"]
+
+    def run():
+        an = fam.sir.AsNumberAnonymizer([], "S")
+        try:
+            return [an._generate_as_number_replacement(num), an._generate_as_number_replacement(num)]
+        except Exception as e:
+            return ["EXC:%s" % type(e).__name__]
+    r, misses = _with_md5(fam, args, run)
+    v = int(num)
+    if v > 4294967295:
+        bad = r != ["EXC:ValueError"]
+    elif len(r) != 2 or r[0] != r[1] or not (r[0].isdigit() and r[0].isascii()):
+        bad = True
+    else:
+        lo, hi = [b for b in _AS_BLOCKS if b[0] <= v <= b[1]][0]
+        bad = not (lo <= int(r[0]) <= hi)
+    return dict(violated=bad, observed=r, detail="number %s -> %r" % (num, r), misses=misses)
+
+
+@register("as_line")
+def as_line(fam, args):
+    """C11-H2: output must equal the independent scanner's: maximal ASCII digit runs equal to a listed number are replaced."""
+    nums, line = args["numbers"], args["line"]
+
+    def run():
+        an = fam.sir.AsNumberAnonymizer(list(nums), "S")
+        try:
+            out = fam.sir.anonymize_as_numbers(an, line)
+        except Exception as e:
+            return dict(out="EXC:%s" % type(e).__name__, expected=None)
+        exp, i = [], 0
+        while i < len(line):
+            if line[i] in "0123456789":
+                j = i
+                while j < len(line) and line[j] in "0123456789":
+                    j += 1
+                run_ = line[i:j]
+                exp.append(an.anonymize(run_) if run_ in nums else run_)
+                i = j
+            else:
+                exp.append(line[i])
+                i += 1
+        return dict(out=out, expected="".join(exp))
+    r, misses = _with_md5(fam, args, run)
+    r.update(violated=(r["out"] != r["expected"]), detail="line %r -> %r, expected %r" % (line, r["out"], r["expected"]), misses=misses)
+    return r
